@@ -158,7 +158,7 @@ def c17(tier):
     ck.sample({"read_probes_per_step": obs[0]["steps"][0].get("probes"), "history": hs[0]["run"],
                "steps": [{"op": s["op"], "nid": s["nid"], "args": s["args"]} for s in hs[0]["steps"][:4]]})
     ck.extra["histories"] = len(hs)
-    ck.rule = ("after every step of a Store.tla history, 25 read / syntax requests (batch checks of 5, 6 and 10 valid relationships with never-seen names among them) (never-seen names, every check transport, expand, "
+    ck.rule = ("after every step of a Store.tla history, 45 read / syntax requests (batch checks of 5, 6 and 10 valid relationships with never-seen names, and names that carry quotes, comment markers and line breaks followed by SQL among them) (never-seen names, every check transport, expand, "
                "namespaces, syntax check, write methods sent to the read and syntax routers) are sent; a byte-level dump of both tables "
                "is compared around each; non-trivial: every list/check step of the histories")
     ck.assumptions = ["sqlite in-memory backend only"]
